@@ -417,6 +417,9 @@ inline std::string classify(const std::vector<std::string>& before, bool colcok,
     if (before[i] == "setColCokUnique(off)") sawColcokOff = true;
     if (prev == "none" && before[i].find("set") == 0) prev = before[i];
   }
+  // a getter that failed after the last setter (the last such one)
+  for (int i = (int)before.size() - 1; i >= 0 && before[i].find("set") != 0; i--)
+    if (before[i].back() == '!') { pop = before[i]; break; }
   if (!pop.empty() && pop.back() == '!')
   {
     std::string fg = pop.substr(0, pop.size() - 1);
@@ -434,15 +437,18 @@ inline std::string classify(const std::vector<std::string>& before, bool colcok,
 }
 inline std::vector<std::string> splitComma(const std::string& t)
 {
+  // op names contain commas inside parentheses: "setLHS(Sigma,X)"
   std::vector<std::string> v;
-  size_t p = 0;
-  while (p <= t.size())
+  std::string cur;
+  int depth = 0;
+  for (char ch : t)
   {
-    size_t e = t.find(',', p);
-    if (e == std::string::npos) e = t.size();
-    if (e > p) v.push_back(t.substr(p, e - p));
-    p = e + 1;
+    if (ch == '(') depth++;
+    if (ch == ')') depth--;
+    if (ch == ',' && depth == 0) { if (!cur.empty()) v.push_back(cur); cur.clear(); }
+    else cur += ch;
   }
+  if (!cur.empty()) v.push_back(cur);
   return v;
 }
 
@@ -623,21 +629,28 @@ inline void run(Rng& r, Ctx& c)
   if (ch.ok) { c.puts("history", ch.data.substr(0, 600)); return; }
   std::string key = "C10:incremental:KrigingCalcul:process-dies:";
   std::string what;
-  if (shrinking >= 0) { key += "while-shrinking"; what = GETTERS[ops[shrinking].arg]; }
-  else if (lastOp < 0) key += "startup";
+  if (lastOp < 0 && shrinking < 0) key += "startup";
   else
   {
-    // the process died inside ops[lastOp]: shrink the history before it (one child per trial), then classify the
-    // minimal deadly history like a mismatch
-    std::vector<Op> cur(ops.begin(), ops.begin() + lastOp);
-    const Op fin = ops[lastOp];
-    c10::Child lastDeath = ch;
-    auto dies = [&](const std::vector<Op>& v) {
+    // The process died inside ops[lastOp] (main pass), or while the child was shrinking the mismatch at ops[shrinking]
+    // (a sub-history was deadly). Shrink here, one child per trial: a trial is "bad" when the child dies (or, in the
+    // second case, when the final getter still mismatches); then classify the minimal history like a mismatch.
+    bool fromShrink = shrinking >= 0;
+    int last        = fromShrink ? shrinking : lastOp;
+    std::vector<Op> cur(ops.begin(), ops.begin() + last);
+    const Op fin = ops[last];
+    c10::Child lastBad = ch;
+    bool minimalDies   = true;
+    auto bad = [&](const std::vector<Op>& v) {
       std::vector<Op> t = v;
       t.push_back(fin);
-      c10::Child k = c10::run_child([&]() -> std::string { (void)replay(cf, t, (int)t.size(), nullptr, true); return "OK"; });
-      if (!k.ok) lastDeath = k;
-      return !k.ok;
+      c10::Child k = c10::run_child([&]() -> std::string {
+        Outcome o = replay(cf, t, fromShrink ? (int)t.size() - 1 : (int)t.size(), nullptr, true);
+        return o.index >= 0 ? "M" : "OK";
+      });
+      bool isBad = !k.ok || k.data == "M";
+      if (isBad) { lastBad = k; minimalDies = !k.ok; }
+      return isBad;
     };
     size_t n = 2;
     int trials = 0;
@@ -651,7 +664,7 @@ inline void run(Rng& r, Ctx& c)
         for (size_t i = 0; i < cur.size(); i++)
           if (i < start || i >= start + chunk) t.push_back(cur[i]);
         trials++;
-        if (dies(t)) { cur = t; n = std::max<size_t>(n - 1, 2); reduced = true; break; }
+        if (bad(t)) { cur = t; n = std::max<size_t>(n - 1, 2); reduced = true; break; }
       }
       if (!reduced)
       {
@@ -659,12 +672,12 @@ inline void run(Rng& r, Ctx& c)
         n = std::min(cur.size(), 2 * n);
       }
     }
-    (void)dies(cur); // progress of the minimal deadly history
+    (void)bad(cur); // progress of the minimal history
     std::vector<std::string> before;
     bool f[4] = {false, false, false, false};
     {
       size_t p = 0;
-      const std::string& pr = lastDeath.progress;
+      const std::string& pr = lastBad.progress;
       while (p < pr.size())
       {
         size_t e = pr.find('\n', p);
@@ -675,9 +688,11 @@ inline void run(Rng& r, Ctx& c)
         if (line.size() == 5 && line[0] == 'S') for (int q = 0; q < 4; q++) f[q] = line[1 + q] == '1';
       }
     }
+    if (!minimalDies && !before.empty()) before.pop_back(); // the final getter returned: its name is the last 't' line
+    if (!minimalDies) key = "C10:incremental:KrigingCalcul:";
     key += classify(before, f[0], f[1], f[2], f[3]);
     if (cf.dual) key += ":dual";
-    what = "in " + opName(fin) + " after minimal history ";
+    what = std::string(minimalDies ? "dies in " : "mismatch of ") + opName(fin) + " after minimal history ";
     for (auto& b : before) what += b + ",";
   }
   c.truth("kcalc-survives", key, false, what + ": child " + ch.why());
